@@ -83,6 +83,7 @@ type c17Thread struct {
 	seenPark int
 	seenDone int
 	release  chan struct{}
+	nopark   bool // kind 1: a goroutine of the real listener; identified for the log, never parked
 }
 
 type c17Orch struct {
@@ -217,7 +218,7 @@ func (sc *c17Scenario) gate(code string) {
 	id := c17Goid()
 	sc.mu.Lock()
 	th := sc.byGoid[id]
-	if th == nil || sc.aborted {
+	if th == nil || sc.aborted || th.nopark {
 		sc.mu.Unlock()
 		return
 	}
@@ -946,9 +947,6 @@ func (sc *c17Scenario) render() (string, []Fail) {
 		}
 	}
 	prefix := "c17:"
-	if sc.reuse {
-		prefix = "c17:slot-reuse-before-close:"
-	}
 	desc := sc.describe()
 	if sc.hang {
 		fails = append(fails, Fail{"c17:hang", "a goroutine neither parked nor returned within the timeout: " + desc})
@@ -971,6 +969,12 @@ func (sc *c17Scenario) render() (string, []Fail) {
 		} else {
 			fails = append(fails, Fail{prefix + "panic-other", n + ": " + desc})
 		}
+	}
+	if sc.reuse {
+		// the schedule itself gave a client number to a second sink while the first was still open: the assumption
+		// of reloadable.go on its callers is violated (the listener never does this, see kind 1 and
+		// C17_listener_respects_unique_numbers); the property demands nothing, the case only compares model and code
+		fails = nil
 	}
 	class := "ok"
 	switch {
